@@ -4,6 +4,7 @@ import hashlib
 from .. import env, hyp, optable as O, refasm as R, ed25519_ref as E
 from .c13 import valid_sig
 from hypothesis import strategies as st
+from ..gen import dict_order as gen_dict_order
 
 F, T = env.F, env.T
 C = O.CODES
@@ -245,6 +246,7 @@ def tlc_case(draw):
                  'ptlc': 'ptlc', 'ptlc-tweak': 'ptlc-tweak'}[lock]
     wk = draw(st.sampled_from([matched_w, matched_w, matched_w, 'ptlc-refund'] + WITS))
     fields = {'sigfield%d' % i: draw(st.binary(min_size=1, max_size=8)) for i in range(1, 9) if draw(st.integers(0, 2)) == 0} or {'sigfield3': b'm'}
+    fields = gen_dict_order(draw, fields)
     return {'check': 'tlc', 'tag': draw(st.binary(min_size=1, max_size=2)), 'lock': lock, 'witness': wk,
             'signer': draw(st.sampled_from(['recv', 'recv', 'refund', 'refund', 'outsider'])),
             'preimage': draw(st.one_of(st.binary(min_size=16, max_size=32), st.binary(min_size=1, max_size=64))),
